@@ -912,6 +912,24 @@ class Model_new(Model):
         return nll, g, h
 
 
+def grad_hessp_from_hessian(model, p, data, mcdata, weight, mc_weight):
+    """
+    Gradient and Hessian-vector product from the model's own ``nll_grad_hessian``,
+    for likelihoods that differ from the default one (batched inputs are merged again).
+    """
+    data = data_merge(*list(data))
+    mcdata = data_merge(*list(mcdata))
+    weight = tf.concat([tf.convert_to_tensor(i) for i in weight], axis=0)
+    mc_weight = tf.concat(
+        [tf.convert_to_tensor(i) for i in mc_weight], axis=0
+    )
+    _, g, h = model.nll_grad_hessian(
+        data, mcdata, weight=weight, mc_weight=mc_weight
+    )
+    g = np.array([float(i) for i in g])
+    return g, np.dot(np.array(h), np.array(p))
+
+
 class GaussianConstr(object):
     def __init__(self, vm, constraint={}):
         self.vm = vm
